@@ -7,8 +7,10 @@ Everything here is independent of the SDK's codecs except the calls to them:
   * pools      concrete leaf values per abstract token (documented below);
   * ts_*       exact integer-microsecond arithmetic for timestamps (the oracle never uses floats);
   * classify   which abstract timestamp class a concrete datetime belongs to.  The classes "epoch0", "unlucky"
-               and "drift" are DEFINED through the float formulas of TimestampConverter (transcribed here as
-               code_ms / code_from_ms), because that is what the model's tokens mean; the oracle does not use them.
+               and "drift" are DEFINED through the float formulas of the ORIGINAL TimestampConverter (transcribed
+               here as code_ms / code_from_ms), because that is what the model's tokens mean: instants the original
+               code altered.  They stay in the pools as regression inputs for the repaired code.  The oracle does
+               not use these formulas.
 """
 from __future__ import annotations
 
@@ -155,12 +157,12 @@ def trunc0_ms(us: int) -> int:
 
 
 def code_ms(dt):
-    """Transcription of TimestampConverter.to_unix_millis (lambda_service.py:707)."""
+    """Transcription of the ORIGINAL TimestampConverter.to_unix_millis (before 23d37db)."""
     return int(dt.timestamp() * 1000)
 
 
 def code_from_ms(ms):
-    """Transcription of TimestampConverter.from_unix_millis (lambda_service.py:713)."""
+    """Transcription of the ORIGINAL TimestampConverter.from_unix_millis (before 23d37db)."""
     return D.datetime.fromtimestamp(ms / 1000, tz=UTC)
 
 
